@@ -12,7 +12,7 @@ RULE = ("(a) round trip: FmtStr built from a run specification, str(f) parsed ba
         "independent SGR interpreter displays for the string. distinct = distinct input "
         "strings; non-trivial = at least one character and one escape sequence.")
 FLOOR = 1000
-SHARDS = {"thorough": 16}
+SHARDS = {"quick": 4, "thorough": 16}
 ASSUMPTIONS = ["rv/model/sgr.py is the reference for what an ANSI terminal displays",
                "text free of ESC / 0x9B"]
 
@@ -55,6 +55,8 @@ def judge_string(ctx, case, s, want):
 
 
 def run_case(ctx, case):
+    if "first_parse_interrupted_at" in case:
+        return first_use_crash_points(ctx)
     if "spec" in case:
         f = obs.build(case["spec"])
         s = str(f)
@@ -83,7 +85,55 @@ def rand_grammar(rng):
     return "".join(parts)
 
 
+FIRST_STRING = "\x1b[1;31mfirst\x1b[0m \x1b[44mparse\x1b[49m"
+
+
+def _probe_strings():
+    out = ["\x1b[%dmX\x1b[0mY" % c for c in CODES]
+    out += ["\x1b[1;31;44mA\x1b[39mB\x1b[49mC\x1b[mD", "p\x1b[4mq\nr\x1b[0ms", "\x1b[32m\x1b[7mz\x1b[0m\x1b[39m"]
+    return out
+
+
+def first_use_crash_points(ctx):
+    """Fault enumeration over the FIRST parse of a process: for every statement of curtsies code
+    it executes, a forked child (which has never parsed anything) takes a KeyboardInterrupt
+    there - a Ctrl-C while an application starts up - and must parse correctly afterwards.
+    Lazily built parser state must never be left half initialised."""
+    from .. import inject
+    from curtsies.formatstring import FmtStr
+
+    def probe():
+        bad = []
+        for st in _probe_strings():
+            want = sgr.interpret(st)[0]
+            try:
+                got = obs.cells(FmtStr.from_str(st))
+            except Exception as ex:  # noqa
+                got = repr(ex)
+            if got != want:
+                bad.append([st, obs.show(want), obs.show(got) if isinstance(got, list) else got])
+        return bad
+    n, results = inject.fork_crash_points(lambda: FmtStr.from_str(FIRST_STRING), probe, ctx.mine)
+    if ctx.shard[0] == 0:
+        ctx.notes["first_parse_statements"] = n
+    for res in results:
+        if res.get("error"):
+            ctx.inconclusive_because("first-use child error: %s" % res["error"])
+            continue
+        if res["k"] == 0:
+            if res["bad"]:
+                ctx.inconclusive_because("first-use probe fails without any interruption: %r" % (res["bad"][:1],))
+            continue
+        case = {"first_parse_interrupted_at": res["k"], "where": res.get("where")}
+        ctx.judge(not res["bad"], case, ("C05", "first-use", res["k"]),
+                  "C05:half-initialised-after-interrupted-first-parse",
+                  "every probe string parsed as the reference interpreter displays it", res["bad"][:3],
+                  {"fired": res["fired"]}, nontrivial=res["fired"])
+        ctx.count("first_use_crash_points")
+
+
 def run(ctx):
+    first_use_crash_points(ctx)
     tri = not ctx.quick
     n = 0
     for a in attsets(tri):
